@@ -4,6 +4,7 @@ import (
 	"encoding/json"
 	"fmt"
 	"os"
+	"reflect"
 	"runtime"
 	"strings"
 	"time"
@@ -326,19 +327,23 @@ func runHist13(h *Hist13, x *evalCtx) hist13Result {
 					} else {
 						res.Reused++
 					}
-					for k := range m {
-						delete(m, k)
-					}
-					for k, v := range f {
-						m[k] = v
-					}
+					// containers of equal shape keep their identity, elements are overwritten
+					deepAssign(reflect.ValueOf(m), reflect.ValueOf(f))
 					return m, "", nil
 				case *EnvStruct:
-					*inplaceStd = *f
+					if inplaceStd.L == nil {
+						*inplaceStd = *f
+					} else {
+						deepAssign(reflect.ValueOf(inplaceStd), reflect.ValueOf(f))
+					}
 					res.Reused++
 					return inplaceStd, "", nil
 				case *EnvStruct2:
-					*inplaceAlt = *f
+					if inplaceAlt.L == nil {
+						*inplaceAlt = *f
+					} else {
+						deepAssign(reflect.ValueOf(inplaceAlt), reflect.ValueOf(f))
+					}
 					res.Reused++
 					return inplaceAlt, "", nil
 				}
